@@ -346,7 +346,15 @@ def register(I):
             return v
         if isinstance(v, BoxV):
             return Ptr(v.c, 0)
-        it = None
+        if isinstance(v, Enum) and "AsRef<str>" in cc.raw and I.p.src.enum_def(v.ty) is not None:
+            # strum::AsRefStr
+            attrs = " ".join(I.p.src.enum_attrs.get(v.ty.split("::")[-1], []))
+            for name, d, payload in I.p.src.enum_def(v.ty):
+                if d == v.d:
+                    if "serialize_all" in attrs and "snake_case" in attrs:
+                        from .intr_serde import snake
+                        return snake(name)
+                    return name
         return a[0]
 
     @pat(r"^<.* as std::borrow::Borrow(Mut)?>::borrow(_mut)?$")
